@@ -463,7 +463,10 @@ func (g *graph) addBranch(startNode string, branch *GraphBranch, skipData bool) 
 	}
 	branch.idx = len(g.handlerPreBranch[startNode])
 
-	if startNode != START && g.nodes[startNode].executorMeta.component == ComponentOfPassthrough {
+	// the condition tells the type of a passthrough node only if nothing else has told it yet;
+	// an already inferred type is validated against the condition below, not overwritten
+	if startNode != START && g.nodes[startNode].executorMeta.component == ComponentOfPassthrough &&
+		g.nodes[startNode].cr.inputType == nil {
 		g.nodes[startNode].cr.inputType = branch.inputType
 		g.nodes[startNode].cr.outputType = branch.inputType
 		g.nodes[startNode].cr.genericHelper = branch.genericHelper.forPredecessorPassthrough()
